@@ -837,7 +837,7 @@ func c13D9(l *core.Ledger, r *rt) {
 				top = top.Parent()
 			}
 			switch {
-			case top.Name() == "WrapMessage":
+			case top.Name() == "WrapMessage" || calledOnlyBy(l, r, top, "WrapMessage"):
 				server = append(server, rw)
 			case len(recvMsgCalls(top)) > 0 && top.Signature.Recv() != nil && isNamed(top.Signature.Recv().Type(), core.RootModule, "channel"):
 				client = append(client, rw)
@@ -867,13 +867,26 @@ func c13D9(l *core.Ledger, r *rt) {
 		// nobody rewrites: exact for valid UTF-8; invalid UTF-8 cannot travel at all
 		valid := false
 		if wm != nil {
-			sx.AllInstrs(wm, func(_ sx.Node, in ssa.Instruction) {
-				if cc := sx.CallOf(in); cc != nil {
-					if nm := sx.StaticCalleeName(cc); nm == "unicode/utf8.ValidString" || nm == "unicode/utf8.Valid" || nm == "strings.ToValidUTF8" {
-						valid = true
-					}
+			// WrapMessage itself or a helper of the package it hands the error to
+			seenF := map[*ssa.Function]bool{}
+			var scan func(f *ssa.Function, d int)
+			scan = func(f *ssa.Function, d int) {
+				if f == nil || seenF[f] || d > 2 || len(f.Blocks) == 0 {
+					return
 				}
-			})
+				seenF[f] = true
+				sx.AllInstrs(f, func(_ sx.Node, in ssa.Instruction) {
+					if cc := sx.CallOf(in); cc != nil {
+						if nm := sx.StaticCalleeName(cc); nm == "unicode/utf8.ValidString" || nm == "unicode/utf8.Valid" || nm == "strings.ToValidUTF8" {
+							valid = true
+						}
+						if sc := cc.StaticCallee(); sc != nil && inRepo(sc) {
+							scan(sc, d+1)
+						}
+					}
+				})
+			}
+			scan(wm, 0)
 		}
 		l.Check(valid, "C13-D9", "gorums.WrapMessage/status-text", pos, "the status text is validated before it is put into the proto3 string",
 			"the text of a handler's error goes into Metadata.Status.message (a proto3 string) as it is: when it is not valid UTF-8 the reply cannot be marshalled, the server's SendMsg fails and gRPC ends the whole NodeStream - the caller gets 'stream is down' instead of the handler's code and text, and so does every other call pending on that connection")
@@ -1138,4 +1151,28 @@ func c13D11(l *core.Ledger, r *rt, gum *ssa.Function) {
 			"msg.Message can be "+strings.Join(dedupStrings(stale), ", ")+": an object that an earlier decode has already handed out. Its holder (a handler, a quorum function filling in an aggregate, the application annotating a result) writes to it, and every later frame that decodes to the shared object yields that content instead of what was encoded")
 	})
 	l.Floor("C13-D11", n, 1, "stores of the decoded message")
+}
+
+// calledOnlyBy: f is an unexported function of the runtime whose only static callers are functions named caller.
+func calledOnlyBy(l *core.Ledger, r *rt, f *ssa.Function, caller string) bool {
+	if f == nil || f.Object() == nil || f.Object().Exported() {
+		return false
+	}
+	n := 0
+	ok := true
+	for _, g := range allFuncs(l.Prog, r.pkg) {
+		sx.AllInstrs(g, func(_ sx.Node, in ssa.Instruction) {
+			if cc := sx.CallOf(in); cc != nil && cc.StaticCallee() == f {
+				n++
+				top := g
+				for top.Parent() != nil {
+					top = top.Parent()
+				}
+				if top.Name() != caller {
+					ok = false
+				}
+			}
+		})
+	}
+	return ok && n > 0
 }
